@@ -63,12 +63,44 @@ fn convert_lexer_error(source: &str, error: &Simple<'_, char>, source_id: u16) -
     .with_source(ErrorSource::Lexer(error_source))
 }
 
+/// A number literal such as `1e400` has a valid spelling but no finite 64-bit
+/// value: `str::parse::<f64>` returns infinity. Such a value has no JSON form
+/// (it is written as `null`) and no SQL form, so the spelling is an error of
+/// the literal itself.
+fn non_finite_literals(source: &str, tokens: &[Token], source_id: u16) -> Vec<E> {
+    tokens
+        .iter()
+        .filter(|t| matches!(&t.kind, TokenKind::Literal(Literal::Float(f)) if !f.is_finite()))
+        .map(|t| {
+            // token spans are byte offsets; errors carry character offsets
+            let start = source[..t.span.start].chars().count();
+            let end = source[..t.span.end].chars().count();
+            WithErrorInfo::with_span(
+                Error::new_simple(
+                    "number literal is out of range: its value is not a finite 64-bit float",
+                ),
+                Some(crate::span::Span {
+                    start,
+                    end,
+                    source_id,
+                }),
+            )
+        })
+        .collect()
+}
+
 /// Lex PRQL into LR, returning both the LR and any errors encountered
 pub fn lex_source_recovery(source: &str, source_id: u16) -> (Option<Vec<Token>>, Vec<E>) {
     let result = lexer().parse(source).into_result();
 
     match result {
-        Ok(tokens) => (Some(insert_start(tokens.to_vec())), vec![]),
+        Ok(tokens) => {
+            let errors = non_finite_literals(source, &tokens, source_id);
+            if !errors.is_empty() {
+                return (None, errors);
+            }
+            (Some(insert_start(tokens.to_vec())), vec![])
+        }
         Err(errors) => {
             // Convert chumsky Simple errors to our Error type
             let errors = errors
@@ -86,7 +118,13 @@ pub fn lex_source(source: &str) -> Result<Tokens, Vec<E>> {
     let result = lexer().parse(source).into_result();
 
     match result {
-        Ok(tokens) => Ok(Tokens(insert_start(tokens.to_vec()))),
+        Ok(tokens) => {
+            let errors = non_finite_literals(source, &tokens, 0);
+            if !errors.is_empty() {
+                return Err(errors);
+            }
+            Ok(Tokens(insert_start(tokens.to_vec())))
+        }
         Err(errors) => {
             // Convert chumsky Simple errors to our Error type
             let errors = errors
